@@ -168,8 +168,9 @@ def main():
         "wall_s": round(wall, 2),
         "violations": len(violations),
     }
-    os.makedirs("/verif/evidence", exist_ok=True)
-    with open(f"/verif/evidence/{prop}.json", "w") as f:
+    evdir = os.environ.get("VERIF_EVIDENCE_DIR", "/verif/evidence")  # the override is only for dry runs that must not touch the committed evidence
+    os.makedirs(evdir, exist_ok=True)
+    with open(f"{evdir}/{prop}.json", "w") as f:
         json.dump(evidence, f, indent=1, default=str)
 
     for k, v in known_hits.items():
